@@ -48,11 +48,14 @@ L1_QUERY = ["RModel.BSet.rankLt_succ", "RModel.BSet.rankLt_eq_count", "RModel.BS
             "RModel.BSet.toList_length", "RModel.BSet.isEmpty_iff", "RModel.BSet.canon_ext"]
 L1_NBR = ["RModel.BSet.nextValue_some", "RModel.BSet.nextValue_none", "RModel.BSet.prevValue_some", "RModel.BSet.prevValue_none",
           "RModel.BSet.nextAbsent_spec", "RModel.BSet.prevAbsent_some", "RModel.BSet.prevAbsent_none"]
+L2_CONT = ["RModel.Impl.toBSet_and2", "RModel.Impl.toBSet_or2", "RModel.Impl.toBSet_xor2", "RModel.Impl.toBSet_andNot2",
+           "RModel.Impl.wf_and2", "RModel.Impl.wf_or2", "RModel.Impl.wf_xor2", "RModel.Impl.wf_andNot2", "RModel.Impl.mem_toBSet"]
 L1_XFORM = ["RModel.BSet.mem_shift", "RModel.BSet.canon_shift", "RModel.BSet.mem_flipRange", "RModel.BSet.canon_xor"]
 
 PROPS = {
-    "C01": {"suites": [("alg", 1.0), ("kern", 0.3), ("kernspecial", 1.0), ("kernthresh", 0.5), ("popcnt", 1.0)], "theorems": L1_ALGEBRA + F_THRESH,
-            "modules": DEFAULT_MODULES + [FACTS],
+    "C01": {"suites": [("alg", 1.0), ("kern", 0.3), ("kernspecial", 1.0), ("kernthresh", 0.5), ("popcnt", 1.0), ("kernl2", 0.5)],
+            "theorems": L1_ALGEBRA + F_THRESH + L2_CONT,
+            "modules": DEFAULT_MODULES + [FACTS, "RProofs.ContOps"],
             "owns": {"and", "or", "xor", "andnot", "iand", "ior", "ixor", "iandnot", "andcard", "orcard", "isect", "eq", "dig",
                      "kern", "popcnt"}},
     "C02": {"suites": [("hist", 1.0)], "theorems": L1_MUT + L1_ALGEBRA[:3] + F_THRESH, "modules": DEFAULT_MODULES + [FACTS],
@@ -70,7 +73,7 @@ PROPS = {
             "theorems": ["RModel.Impl.encode_length", "RModel.Impl.decode_encode", "RModel.Impl.prefix_rejected",
                          "RModel.Impl.decode_no_panic", "RModel.Impl.roundtrip_wf", "RModel.BSet.canon_ext"] + F_SERIAL,
             "modules": DEFAULT_MODULES + [FACTS, "RProofs.Properties.C05"],
-            "owns": {"ser", "rd", "wrfail", "trunc", "wf", "dig", "add", "or", "mkrepr"}},
+            "owns": {"ser", "rd", "wrfail", "wrfailall", "rdsplit", "trunc", "wf", "dig", "add", "or", "mkrepr"}},
     "C06": {"suites": [("spec", 1.0)], "theorems": ["RModel.BSet.canon_ext"] + F_SERIAL, "modules": DEFAULT_MODULES + [FACTS], "owns": {"spec", "ser", "card", "toarr"}},
     "C07": {"suites": [("alias", 1.0)], "modules": ["RProofs.Heap"],
             "theorems": ["RModel.Impl.safe_nil", "RModel.Impl.safe_iff", "RModel.Impl.safe_unflagged_private",
@@ -83,9 +86,9 @@ PROPS = {
             "theorems": ["RModel.Impl.safe_unflagged_not_foreign", "RModel.Impl.safe_addZeroCopy", "RModel.Impl.gate_not_foreign",
                          "RModel.Impl.detach_no_foreign'", "RModel.Impl.safe_reachable", "RModel.Impl.hdrLocal_run"],
             "owns": None},
-    "C09": {"suites": [("hist", 1.0), ("alg", 0.7), ("xform", 0.7), ("ser", 0.5), ("kernwf", 1.0), ("kernthresh", 1.0), ("thresh", 0.5), ("agg", 0.5)],
-            "theorems": ["RModel.Impl.wf_implies_validate", "RModel.Impl.validate_implies_wf_of_decoded", "RModel.BSet.canon_ext"] + F_THRESH,
-            "modules": DEFAULT_MODULES + [FACTS, "RProofs.Properties.C09"],
+    "C09": {"suites": [("hist", 1.0), ("alg", 0.7), ("xform", 0.7), ("ser", 0.5), ("kernwf", 1.0), ("kernthresh", 1.0), ("thresh", 0.5), ("agg", 0.5), ("kernl2", 0.5)],
+            "theorems": ["RModel.Impl.wf_implies_validate", "RModel.Impl.validate_implies_wf_of_decoded", "RModel.BSet.canon_ext"] + F_THRESH + L2_CONT[4:8],
+            "modules": DEFAULT_MODULES + [FACTS, "RProofs.Properties.C09", "RProofs.ContOps"],
             "owns": {"wf", "kernwf"}},
     "C10": {"suites": [("fuzzdec", 1.0), ("fuzzfrozen", 0.5)], "corpus": ["corpus/C10/frozen-bitmap4096.txt"],
             "theorems": ["RModel.Impl.decode_no_panic", "RModel.Impl.prefix_rejected", "RModel.Impl.decode_shape",
